@@ -1012,4 +1012,42 @@ theorem from_final_atom_complete (r : RMol) (nbrs : List (List Nat)) (ch : List 
 
 end FromFinal2
 
+section FromFinal3
+open ChythonModel.Model.StereoFix ChythonModel.Proofs.C12Fix
+
+/-- **soundness of the returned bond labels**: a label on a bond `x–y` of the molecule `fix_stereo` leaves behind is a label the
+transfer put (same sign) on a DOUBLE bond both of whose atoms map, in `_stereo_cis_trans_terminals`, to the terminal pair
+`{x, y}`, and that unit was reported chiral for the labels restored before it — no E/Z label is invented, moved to another unit
+or inverted by the tail of `from_rdkit_molecule`. -/
+theorem fix_stereo_mol_bond_sound (ch : List Label → SUnit → Bool) (m : Mol) (env : StereoEnv) (sc : List Cumulene)
+    (x : Nat) (nb : List (Nat × Bond)) (y : Nat) (b : Bond) (s : Bool)
+    (hx : (x, nb) ∈ (fixStereoMol ch m env sc).1.adj) (hy : (y, b) ∈ nb) (hs : b.stereo = some s) :
+    ∃ ta : Nat × Nat, ((ta.1 = x ∧ ta.2 = y) ∨ (ta.1 = y ∧ ta.2 = x)) ∧
+      ((⟨.cisTrans, ta.1, ta.2⟩ : SUnit), s) ∈ (fixStereoMol ch m env sc).2.labels ∧
+      (∃ e ∈ m.bonds, e.2.2.stereo = some s ∧ e.2.2.order = 2 ∧
+        (terminalsOf sc).lookup e.1 = some ta ∧ (terminalsOf sc).lookup e.2.1 = some ta) ∧
+      ∃ q, q <+: (fixStereoMol ch m env sc).2.labels ∧ ch q ⟨.cisTrans, ta.1, ta.2⟩ = true := by
+  simp only [fixStereoMol] at hx ⊢
+  rcases foldl_bond_label _ _ x nb y b s hx hy hs with ⟨l, hl, hk, hab, hsg⟩ | ⟨nb0, b0, hx0, hy0, hs0⟩
+  · obtain ⟨hcol, q, hq, hch⟩ := ChythonModel.Props.C12.fix_stereo_sound ch _ _ l hl
+    obtain ⟨u, sg⟩ := l
+    simp only at hk hab hsg
+    subst hsg
+    have hrule := collectAtoms_rule (fixAtomsIn m env (allenesOf sc)) u sg
+    simp only [collect] at hcol
+    rcases List.mem_append.mp hcol with h1 | h3
+    · rcases List.mem_append.mp h1 with ht | hal
+      · obtain ⟨_, _, _, _, hu⟩ := hrule.1.mp ht
+        rw [hu] at hk; cases hk
+      · obtain ⟨_, _, _, _, _, hu⟩ := hrule.2.mp hal
+        rw [hu] at hk; cases hk
+    · obtain ⟨bi, hbi, hbs, hbo, ta, htn, htm, hu⟩ := (collectBonds_rule _ u sg).mp h3
+      subst hu
+      simp only [fixBondsIn, List.mem_map] at hbi
+      obtain ⟨⟨n0, k0, b0⟩, hmem, rfl⟩ := hbi
+      exact ⟨ta, hab, hl, ⟨(n0, k0, b0), hmem, hbs, hbo, htn, htm⟩, q, hq, hch⟩
+  · exact absurd hs0 (clearLabels_no_bond_label m x nb0 y b0 s hx0 hy0)
+
+end FromFinal3
+
 end ChythonModel.Props.C20
